@@ -21,6 +21,7 @@ type Outcome struct {
 	Changed  bool   // fmt(x) != x (non-trivial case)
 	Class    string // "" = property holds; otherwise the failure class
 	Detail   string // human description of the failure (expected vs observed)
+	Note     string // optional evidence counter to bump for this program
 }
 
 // Oracle decides one program.
@@ -60,7 +61,8 @@ func (m *memo) get(o Oracle, src string) Outcome {
 type Runner struct {
 	C      *core.Ctx
 	Oracle Oracle
-	What   string // short name of the property's failure, for summaries
+	What   string                     // short name of the property's failure, for summaries
+	Weaker func(from, to string) bool // see Reduce
 	cache  memo
 
 	perOrigin  sync.Map // class of origin -> *[4]int64 {generated, accepted, changed, failing}
@@ -130,6 +132,9 @@ func (r *Runner) One(p Prog) {
 	}
 	r.count(p.Origin, 1)
 	r.C.Eval(1)
+	if o.Note != "" {
+		r.C.Add(o.Note, 1)
+	}
 	if o.Changed {
 		r.count(p.Origin, 2)
 		r.C.NontrivialStr(p.Src)
@@ -149,7 +154,7 @@ func (r *Runner) Report(p Prog, o Outcome) {
 	class := o.Class
 	seen := map[string]bool{}
 	for round := 0; round < 5; round++ {
-		red := Reduce(cur, class, r.pred)
+		red := Reduce(cur, class, r.pred, r.Weaker)
 		atomic.AddInt64(&r.redTests, int64(red.Tests))
 		atomic.AddInt64(&r.reductions, 1)
 		if !red.Lift {
@@ -162,7 +167,7 @@ func (r *Runner) Report(p Prog, o Outcome) {
 		}
 		if !seen[red.Key] {
 			seen[red.Key] = true
-			r.note(red.Key, class, detail, red.Src, p.Origin)
+			r.note(red.Key, red.Class, detail, red.Src, p.Origin)
 			orig := p.Src
 			if len(orig) > 4000 {
 				orig = orig[:4000] + "…"
@@ -170,7 +175,7 @@ func (r *Runner) Report(p Prog, o Outcome) {
 			if orig == red.Src {
 				orig = ""
 			}
-			r.C.Violate(red.Key, fmt.Sprintf("%s [%s] witness %s (from %s): %s", r.What, class, red.Key, p.Origin, detail),
+			r.C.Violate(red.Key, fmt.Sprintf("%s [%s] witness %s (from %s): %s", r.What, red.Class, red.Key, p.Origin, detail),
 				Case{Src: red.Src, Origin: p.Origin, Original: orig})
 		}
 		if len(red.Core) == 0 {
